@@ -87,10 +87,22 @@ theorem count_zero_of_not_contains (c : Char) (s : Str) (h : ¬ s.contains c) : 
   subst this
   exact List.contains_iff_mem.mpr hd
 
-/-- the walker's depth arithmetic: a child directory is one level deeper -/
-theorem depth_child (canon name : Str) (base : Nat) (hn : ¬ name.contains '/') (hc : 1 < canon.length)
-    (hb : base ≤ calcDepth canon) :
-    calcDepth (childCanon canon name) - base + 1 = (calcDepth canon - base + 1) + 1 := by
+theorem calcDepth_long (s : Str) (h : 1 < s.length) : calcDepth s = count '/' s + 1 := by
+  unfold calcDepth
+  have hne : (s == ['/']) = false := by
+    cases h' : s == ['/'] with
+    | false => rfl
+    | true =>
+      have : s = ['/'] := by simpa using h'
+      rw [this] at h; simp at h
+  simp [hne]
+
+theorem childCanon_long (canon name : Str) (hc : 1 < canon.length) : 1 < (childCanon canon name).length := by
+  unfold childCanon
+  split <;> simp <;> omega
+
+theorem count_childCanon (canon name : Str) (hn : ¬ name.contains '/') (hc : 1 < canon.length) :
+    count '/' (childCanon canon name) = count '/' canon + 1 := by
   unfold childCanon
   have hne : (canon == ['/']) = false := by
     cases h : canon == ['/'] with
@@ -98,22 +110,42 @@ theorem depth_child (canon name : Str) (base : Nat) (hn : ¬ name.contains '/') 
     | true =>
       have : canon = ['/'] := by simpa using h
       rw [this] at hc; simp at hc
-  simp only [hne, Bool.false_eq_true, if_false, calcDepth]
+  simp only [hne, Bool.false_eq_true, if_false]
   rw [count_append, count_append, count_zero_of_not_contains '/' name hn]
   have : count '/' ['/'] = 1 := by decide
-  unfold calcDepth at hb
   omega
 
-theorem childCanon_long (canon name : Str) (hc : 1 < canon.length) : 1 < (childCanon canon name).length := by
-  unfold childCanon
-  split <;> simp <;> omega
+/-- the walker's depth arithmetic: a child directory is one level deeper -/
+theorem depth_child (canon name : Str) (base : Nat) (hn : ¬ name.contains '/') (hc : 1 < canon.length)
+    (hb : base ≤ calcDepth canon) :
+    calcDepth (childCanon canon name) - base + 1 = (calcDepth canon - base + 1) + 1 := by
+  rw [calcDepth_long _ (childCanon_long canon name hc), count_childCanon canon name hn hc]
+  rw [calcDepth_long _ hc] at hb ⊢
+  omega
 
-theorem base_le_child (canon name : Str) (base : Nat) (hb : base ≤ calcDepth canon) :
+/-- ... and the same directly below the root directory `/` (D58 fix: `/` is one level above `/usr`) -/
+theorem depth_child_of_root (name : Str) (hn : ¬ name.contains '/') (hne : name ≠ []) :
+    calcDepth (childCanon ['/'] name) - calcDepth ['/'] + 1 = 2 := by
+  have h1 : calcDepth ['/'] = 1 := by decide
+  have h2 : childCanon ['/'] name = '/' :: name := by simp [childCanon]
+  have hl : 1 < ('/' :: name).length := by
+    cases name with
+    | nil => exact absurd rfl hne
+    | cons a t => simp
+  rw [h1, h2, calcDepth_long _ hl]
+  have : count '/' ('/' :: name) = 1 := by
+    have := count_append '/' ['/'] name
+    simp only [List.singleton_append] at this
+    rw [this, count_zero_of_not_contains '/' name hn]
+    decide
+  omega
+
+theorem base_le_child (canon name : Str) (base : Nat) (hn : ¬ name.contains '/') (hc : 1 < canon.length)
+    (hb : base ≤ calcDepth canon) :
     base ≤ calcDepth (childCanon canon name) := by
-  unfold childCanon
-  split
-  · simp only [calcDepth, count_append] at *; omega
-  · simp only [calcDepth, count_append] at *; omega
+  rw [calcDepth_long _ (childCanon_long canon name hc), count_childCanon canon name hn hc]
+  rw [calcDepth_long _ hc] at hb
+  omega
 
 /-- no streamed LIMIT is active -/
 def NoLimit (p : Plan) : Prop := p.q.isBuffered = true ∨ p.q.limit = 0
@@ -227,7 +259,7 @@ theorem dfs_node (p : Plan) (rp : RootParams) (hl : NoLimit p) (dirPath dirCanon
           have hd := depth_child dirCanon de.name rp.base hname hc hb
           rw [hd, hlvl]
           have ih := dfs_list p rp hl (fillEntry de dirPath dirCanon de.absPath).path (childCanon dirCanon de.name) (lvl + 1)
-            (childCanon_long dirCanon de.name hc) (base_le_child dirCanon de.name rp.base hb) (by rw [hd, hlvl])
+            (childCanon_long dirCanon de.name hc) (base_le_child dirCanon de.name rp.base hname hc hb) (by rw [hd, hlvl])
             kids { res := r1, walk := { st.walk with visited := st.walk.visited ++ [de.ino] } } hgk hnd' hfresh'
           simp only at ih
           cases hf : foldReport p rp r1 (eventsL rp (fillEntry de dirPath dirCanon de.absPath).path (childCanon dirCanon de.name) (lvl + 1) kids) with
